@@ -52,7 +52,7 @@ struct State {
 	long short_unmaps = 0; long bad_frees = 0;
 	long wx_events = 0; char wx_what[160] = { 0 };     // W+X observed on a library mapping
 	long rwx_allowed = 0;                               // set by the harness when RWX is legitimate (non-secure VM buffers)
-	char last_req[96] = { 0 };
+	char last_req[96] = { 0 }; char failed_req[96] = { 0 };   // description of the most recent / the first failed request
 };
 inline State& S() { static State s; return s; }
 
@@ -68,7 +68,7 @@ inline void init() {
 
 inline bool should_fail() {
 	State& s = S(); ++s.requests;
-	if (s.fail_at > 0 && (s.requests == s.fail_at || (s.fail_sticky && s.requests > s.fail_at))) { ++s.failed; return true; }
+	if (s.fail_at > 0 && (s.requests == s.fail_at || (s.fail_sticky && s.requests > s.fail_at))) { if (!s.failed) memcpy(s.failed_req, s.last_req, sizeof s.failed_req); ++s.failed; return true; }
 	return false;
 }
 
